@@ -69,6 +69,10 @@ fn main() {
     let code = match args.id.as_str() {
         "C03" => props::structural::run("C03", &args),
         "C04" => props::structural::run("C04", &args),
+        "C16" => props::traverse::run(&args),
+        "C16-depth-worker" => props::traverse::depth_worker(),
+        "C15" => props::builder::run(&args),
+        "C17" => props::ids::run(&args),
         "C14" => props::config::run(&args),
         "C13" => props::names::run(&args),
         "C19" => props::indexmaps::run(&args),
